@@ -278,6 +278,41 @@ fn main() {
     let p = new { a: 1 / zero, b: l[5] };
     println(p);
 }`)},
+	{"anyobj-equality-mixed", Single(`
+fn main() {
+    let a = new { p: 1, q: "x", r: 2.5, s: true } as { ? };
+    let b = new { p: 1, q: 7, r: "y", s: true } as { ? };
+    try {
+        println(a == b);
+    } catch e {
+        println("cmp failed", e.message);
+    }
+    let o = new { k1: [1, 2], k2: [1, 2], k3: "z" };
+    let c = o;
+    println(o == c, o.keys());
+    for k in o.keys() { println("key", k); }
+}`)},
+	{"ill-typed-both-operands", Single(`
+fn f(a: int, b: str) -> int { a }
+fn main() {
+    let x = "s" + 1;
+    let y = true * "t";
+    let z = f("a", 2) + f(1);
+    if 1 { } else { }
+    match x { 1 => { }, "s" => { } }
+    println(fooo1, fooo2);
+    let foo1 = 1; let foo2 = 2;
+    println(foo3);
+}`)},
+	{"impl-and-templates", Single(`
+type Animal = { name: str, legs: int };
+fn describe(a: Animal) -> str { a.name + ":" + a.legs.to_string() }
+fn main() {
+    let cat: Animal = new { name: "cat", legs: 4 };
+    let bad: Animal = new { name: 1, legs: "four" };
+    let missing: Animal = new { };
+    println(describe(cat), describe(bad), missing);
+}`)},
 	{"type-errors", Single(`
 fn f(a: int) -> str { a }
 fn main() {
@@ -593,9 +628,11 @@ func planC14(t *testing.T, tier string, seed uint64) ([]RunSpec, error) {
 			for k := 0; k < n; k++ {
 				s := RunSpec{Property: "C14", Workload: "c14/" + p.name + "/" + []string{"vm", "interp"}[backend], Params: map[string]int{"prog": pi, "backend": backend}}
 				s.Sim = swarm(seed, idx)
-				s.Sim.StepCostNs = 100
-				s.Sim.Quantum = nil
-				s.Sim.ClockJumps = false
+				s.Sim.StepCostNs = []int64{100, 100, 2000, 50000}[k%4] // how far the core gets between two polls of the host's wait
+				if k%3 != 2 {
+					s.Sim.Quantum = nil // (other runs keep the swarm's instruction-level preemption of host vs core)
+				}
+				s.Sim.ClockJumps = k%4 == 3
 				s.Sim.MapPerm = true
 				s.Sim.PPerm = []float64{0.05, 0.3, 1.0}[k%3]
 				if k%5 == 4 {
